@@ -444,7 +444,19 @@ func DriverMain(prop, tier string, seed int64, self, raceBin string) int {
 				eb, _ := os.ReadFile(prefix + ".err")
 				idx := lastBegun(prefix + ".log")
 				sig := fatalSignature(string(eb))
-				if strings.HasPrefix(sig, "HANG") {
+				if site := selfDeadlock(string(eb)); strings.HasPrefix(sig, "HANG") && !m.Race && site != "" {
+					// Not a matter of time: the goroutine that runs the case is parked in the library's own
+					// mutex.Lock and no other goroutine of the process is inside the library, so nothing can ever
+					// unlock it. (The watchdog only decided WHEN to look.)
+					mg.fatal("deadlock:"+site, fmt.Sprintf("case %d: the call never returns - its goroutine waits in (*stack).lock for a mutex that no goroutine inside the library holds or can release\n%s", idx, tail(string(eb), 40)), idx)
+					mg.mu.Lock()
+					mg.hangs++
+					giveUp := mg.hangs > 4 // (the verdict is in; every further deadlock costs another watchdog period)
+					mg.mu.Unlock()
+					if giveUp {
+						return
+					}
+				} else if strings.HasPrefix(sig, "HANG") {
 					mg.mu.Lock()
 					mg.inconcl = append(mg.inconcl, fmt.Sprintf("case %d made no progress within the hang watchdog (inconclusive); see %s.err", idx, prefix))
 					mg.hangs++
@@ -498,6 +510,47 @@ func DriverMain(prop, tier string, seed int64, self, raceBin string) int {
 	wg.Wait()
 
 	return finish(m, mg, prop, tier, seed, n, start)
+}
+
+// selfDeadlock inspects the goroutine dump a child wrote when its hang watchdog fired. It returns the public library
+// method at fault if goroutine 1 (which runs the cases) is parked in sync.Mutex.Lock called from (*stack).lock while no
+// other goroutine has a frame inside the library; "" otherwise.
+func selfDeadlock(dump string) string {
+	blocks := strings.Split(dump, "\n\n")
+	site, others := "", false
+	for _, b := range blocks {
+		b = strings.TrimLeft(b, "\n")
+		if i := strings.Index(b, "goroutine "); i > 0 {
+			b = b[i:] // (the first block is preceded by the HANG line)
+		}
+		if !strings.HasPrefix(b, "goroutine ") {
+			continue
+		}
+		if strings.HasPrefix(b, "goroutine 1 [") {
+			if !strings.Contains(b, "go-stackage.(*stack).lock(") || !(strings.Contains(b, "sync.(*Mutex).Lock") || strings.Contains(b, "sync.Mutex.Lock")) {
+				return ""
+			}
+			site = "(*stack).lock"
+			for _, l := range strings.Split(b, "\n") {
+				if j := strings.Index(l, "go-stackage.Stack."); j >= 0 {
+					site = strings.SplitN(l[j+len("go-stackage."):], "(", 2)[0]
+					break
+				}
+				if j := strings.Index(l, "go-stackage.Condition."); j >= 0 {
+					site = strings.SplitN(l[j+len("go-stackage."):], "(", 2)[0]
+					break
+				}
+			}
+			continue
+		}
+		if strings.Contains(b, "go-stackage.") {
+			others = true
+		}
+	}
+	if others {
+		return ""
+	}
+	return site
 }
 
 func countRaceReports(prefix string) int64 {
